@@ -52,7 +52,7 @@ def variants(c: Dict[str, Any]):
                 yield d
     # drop a requirement of a candidate
     for p, cands in c["universe"].items():
-        for i, (cn, v, reqs, rd) in enumerate(cands):
+        for i, (cn, v, reqs, *_rd) in enumerate(cands):
             for j in range(len(reqs)):
                 d = copy.deepcopy(c)
                 del d["universe"][p][i][2][j]
@@ -94,13 +94,13 @@ def variants(c: Dict[str, Any]):
                     for part in m.group(3).split(","):
                         yield m.group(1) + (m.group(2) or "") + part + rest
     for p, cands in c["universe"].items():
-        for i, (cn, v, reqs, rd) in enumerate(cands):
+        for i, (cn, v, reqs, *_rd) in enumerate(cands):
             for j, t in enumerate(reqs):
                 for t2 in simp(t):
                     d = copy.deepcopy(c)
                     d["universe"][p][i][2][j] = t2
                     yield d
-            if not rd:
+            if not _rd[0]:
                 d = copy.deepcopy(c)
                 d["universe"][p][i][3] = True
                 yield d
